@@ -727,6 +727,11 @@ class Normalizer:
             if isinstance(st_t, Term) and st_t.op == "store" and self.nf(st_t.args[0]) == self.nf(other) and _nonempty_guard(a[0], st_t.args[1]):
                 return self.nf(st_t)
             return P_atom(A("phi", self.freeze(a[0]), wrap(x), wrap(y)))
+        if op == "lstsq" and len(a) >= 2:
+            # the minimum-norm least-squares solution of A Z = B is pinv(A) @ B (same relative cut-off)
+            return p_matmul(P_atom(A("pinv", self.freeze(a[0]), *[self.freeze(x) for x in a[2:]])), self.nf(a[1]))
+        if op == "pinv":
+            return P_atom(A("pinv", *[self.freeze(x) for x in a]))
         if op == "truthy" and len(a) == 1 and isinstance(a[0], Term) and a[0].op in ("lt", "le", "gt", "ge", "eq", "ne", "and", "or", "not", "truthy", "is", "isnot", "in", "notin", "bitand", "bitor", "invert", "any", "all"):
             return self.nf(a[0])  # bool() of something that already is a truth value
         if op == "not" and isinstance(a[0], Term) and a[0].op == "not":
